@@ -503,7 +503,13 @@ var recSession = ev.New(prop, "sessions",
 
 // TestSideBySide: independent connections (each case = one client/server pair) on several goroutines at once.
 func TestSideBySide(t *testing.T) {
-	ev.Parallel(t, prop, "side-by-side", 4, 200, 64, genCase, func(c Case) error { _, e := runCase(c); return e })
+	ev.Parallel(t, prop, "side-by-side", 4, 200, 64, func(t *rapid.T) Case {
+		c := genCase(t)
+		for i := range c.Msgs {
+			c.Msgs[i].Size = min(c.Msgs[i].Size, 200000) // dozens of connections are alive at once: keep each small
+		}
+		return c
+	}, func(c Case) error { _, e := runCase(c); return e })
 }
 
 func TestSessions(t *testing.T) {
